@@ -33,6 +33,10 @@ void assign(Vector<T>& lhs, const T& value)
         VERIF_ITER(i);
         lhs[i] = value;
     }
+#ifdef GMGPOLAR_VERIF
+    if (VERIF_VID(lhs) >= 0)
+        VERIF_EV("Op", "\"op\":\"%s\",\"l\":-1,\"a\":%d,\"b\":-2,\"c\":-2", value == T(0) ? "Zero" : "Fill", VERIF_VID(lhs));
+#endif
 }
 
 template <typename T>
@@ -47,6 +51,10 @@ void add(Vector<T>& result, const Vector<T>& x)
         VERIF_ITER(i);
         result[i] += x[i];
     }
+#ifdef GMGPOLAR_VERIF
+    if (VERIF_VID(result) >= 0)
+        VERIF_EV("Op", "\"op\":\"Add\",\"l\":-1,\"a\":%d,\"b\":%d,\"c\":-2", VERIF_VID(result), VERIF_VID(x));
+#endif
 }
 
 template <typename T>
@@ -61,6 +69,10 @@ void add(Vector<T>& result, const Vector<T>& x, const int m)
         VERIF_ITER(i);
         result[i] += x[i];
     }
+#ifdef GMGPOLAR_VERIF
+    if (VERIF_VID(result) >= 0)
+        VERIF_EV("Op", "\"op\":\"Add\",\"l\":-1,\"a\":%d,\"b\":%d,\"c\":-2", VERIF_VID(result), VERIF_VID(x));
+#endif
 }
 
 template <typename T>
@@ -75,6 +87,10 @@ void subtract(Vector<T>& result, const Vector<T>& x)
         VERIF_ITER(i);
         result[i] -= x[i];
     }
+#ifdef GMGPOLAR_VERIF
+    if (VERIF_VID(result) >= 0)
+        VERIF_EV("Op", "\"op\":\"Sub\",\"l\":-1,\"a\":%d,\"b\":%d,\"c\":-2", VERIF_VID(result), VERIF_VID(x));
+#endif
 }
 
 template <typename T>
@@ -89,6 +105,12 @@ void linear_combination(Vector<T>& x, const T& alpha, const Vector<T>& y, const 
         VERIF_ITER(i);
         x[i] = alpha * x[i] + beta * y[i];
     }
+#ifdef GMGPOLAR_VERIF
+    /* c = 16 * round(3 alpha) + round(3 beta) + 8: the coefficients 4/3, -1/3 give 71 */
+    if (VERIF_VID(x) >= 0)
+        VERIF_EV("Op", "\"op\":\"Lin\",\"l\":-1,\"a\":%d,\"b\":%d,\"c\":%d", VERIF_VID(x), VERIF_VID(y),
+                 (int)(16 * std::lround(3.0 * (double)alpha) + std::lround(3.0 * (double)beta) + 8));
+#endif
 }
 
 template <typename T>
@@ -100,6 +122,10 @@ void multiply(Vector<T>& x, const T& alpha)
         VERIF_ITER(i);
         x[i] *= alpha;
     }
+#ifdef GMGPOLAR_VERIF
+    if (VERIF_VID(x) >= 0)
+        VERIF_EV("Op", "\"op\":\"Scale\",\"l\":-1,\"a\":%d,\"b\":-2,\"c\":-2", VERIF_VID(x));
+#endif
 }
 
 template <typename T>
